@@ -1,5 +1,5 @@
 """One function per property: check_Cxx(ctx)."""
-import random
+import random, re
 from common import *
 from scenario import *
 from runner_checks import *
@@ -289,3 +289,96 @@ def check_C08(ctx):
     ctx.coverage["samples"] = sample_of(scens)
     ctx.coverage["evaluations"] = ctx.coverage["correspondence"]["cases"]
     ctx.coverage["distinct_nontrivial"] = len({s.text() for s in scens})
+
+
+def reporter_view(o, reporter, scen):
+    """What one reporter says happened: (verdict, totals dict with the counts it reports, per-test dict name -> (failures, exceptions) or None)."""
+    v = status_of(o)
+    tot, per = {}, None
+    if reporter == "text":
+        t = observed_totals(o, "text")
+        if t: tot = dict(p=int(t[0]), f=int(t[1]), s=int(t[2]), e=int(t[3]))
+        per = {k.split("/")[-1]: tuple(x) for k, x in observed_per_test(o, "text", scen).items()}
+    elif reporter == "quiet":
+        per = {k.split("/")[-1]: tuple(x) for k, x in observed_per_test(o, "quiet", scen).items()}
+        tot = dict(f=sum(x[0] for x in per.values()), e=sum(x[1] for x in per.values()))
+    elif reporter == "cute":
+        t = observed_totals(o, "cute")
+        if t: tot = dict(p=int(t[0]), f=int(t[1]), e=int(t[3]))
+        names = {t.name for _, t in scen.root.tests()}
+        per = {}
+        for l in impl_proj(o, "cute"):
+            k, _, name = l.partition(" ")
+            if k == "starting": per[name] = [0, 0]
+            elif k == "failure" and name in per: per[name][0] = 1      # CUTE shows the first failure of a test only
+            elif k == "error" and name in per: per[name][1] += 1
+        per = {k: tuple(x) for k, x in per.items()}
+    elif reporter in ("xml", "libxml"):
+        cases, errors = xml_testcases(o)
+        if errors:
+            return v, {"xmlerror": errors[0]}, None
+        tot = dict(f=sum(c[2] for c in cases), e=sum(c[3] for c in cases), s=sum(c[4] for c in cases))
+        per = {c[1]: (c[2], c[3]) for c in cases}
+    elif reporter == "cdash":
+        pt, err = cdash_counts(o)
+        if err:
+            return v, {"xmlerror": err}, None
+        tot = dict(p=sum(x[0] for x in pt.values()), f=sum(x[1] for x in pt.values()), e=sum(x[2] for x in pt.values()))
+        per = {k: (x[1], x[2]) for k, x in pt.items()}
+        for _, t in scen.root.tests():
+            per.setdefault(t.name, (0, 0))
+    return v, tot, per
+
+
+def check_C17(ctx):
+    runner_lean(ctx)
+    rng = random.Random(ctx.seed * 1000 + 17)
+    bench = Bench(ctx)
+    scens = [s for s in small_scope(rng, sizes(ctx, 40, 500))] + [Scen(gen_tree(rng, max_tests=8)) for _ in range(sizes(ctx, 50, 1200))]
+    reps = REPORTERS_ALL
+    models = run_model_scenarios([s.text() for s in scens])
+    obs = bench.run_many([(s.text(), r) for s in scens for r in reps])
+    k = 0
+    ndis = 0
+    shown = set()
+    for s, m in zip(scens, models):
+        views = {}
+        for r in reps:
+            o = obs[k]; k += 1
+            views[r] = reporter_view(o, r, s)
+            ds = compare(m, o, r, check_events=False)
+            if ds:
+                ndis += 1
+                ctx.oblige(f"correspondence C17 ({r})", False, ds[0]) if ndis <= 3 else None
+        # the property: every pair of reporters agrees on every count both report, on attribution and on the verdict
+        errs = []
+        ref = views["text"]
+        for r in reps:
+            v, tot, per = views[r]
+            if "xmlerror" in tot:
+                errs.append(f"{r}: output is not well-formed ({tot['xmlerror']})")
+                continue
+            if v != ref[0]:
+                errs.append(f"verdict under {r} is {v}, under text {ref[0]}")
+            for key in tot:
+                if key in ref[1] and tot[key] != ref[1][key]:
+                    errs.append(f"{r} reports {key}={tot[key]}, text reports {key}={ref[1][key]}")
+            if per is not None and ref[2] is not None:
+                for name, x in per.items():
+                    y = ref[2].get(name, (0, 0))
+                    if r == "cute":
+                        y = (min(1, y[0]), y[1])
+                    if tuple(x) != tuple(y):
+                        errs.append(f"{r} attributes (failures, exceptions)={tuple(x)} to test {name}, text attributes {tuple(y)}")
+        if errs:
+            key = re.sub(r"\d+", "N", errs[0])[:70]
+            if key not in shown and len(shown) < 6:
+                shown.add(key)
+                f = facts_of(s, m)
+                ctx.violation("[C17] " + "; ".join(errs[:3]), "# run under every reporter: harness/scenario_run <file> <reporter> <outdir>\n" + s.text(), found_input=True, facts=f)
+    ctx.coverage["correspondence"] = {"cases": len(obs), "disagreements": ndis, "oracle_evaluations": len(scens)}
+    ctx.oblige("correspondence C17: model and implementation agree under every reporter", ndis == 0, f"{ndis} disagreements")
+    ctx.coverage["samples"] = sample_of(scens)
+    ctx.coverage["evaluations"] = len(obs)
+    ctx.coverage["distinct_nontrivial"] = len({s.text() for s in scens})
+    ctx.coverage["reporters"] = reps
